@@ -103,7 +103,7 @@ def c02(tier, rng):
     res.rule = ("C01 input space (regressions, yaml-test-suite, exhaustive strings over the 24-symbol indicator alphabet, "
                 "token soups, line soups, boundary family, mutated suite); non-trivial = the real scanner delivers a token "
                 "besides StreamStart/StreamEnd or reports an error; distinct by text")
-    res.corr_ops = ['par (model parser on the real scanner tokens) vs evt', 'evt', 'psh']
+    res.corr_ops = ['par (model parser on the real scanner tokens) vs evt', 'evt', 'psh', 'api histories (oracle only)']
     texts = c01_space(tier, rng)
     reqs = []
     for t in texts:
@@ -154,6 +154,51 @@ def c02(tier, rng):
                     'reqs': [reqs[i + j]], 'input': repr(t), 'detail': impl[i + j][:1500]})
         if n % 4001 == 0:
             res.samples.append({'text': t[:80], 'events': impl[i + 1][:200]})
+    # the same sentence must come out of every way of pulling: consumers that look ahead with peek before each
+    # next, that peek only now and then, and that keep calling after the end
+    ar = rng.fork('api')
+    acases = []
+    for n, t in enumerate(texts):
+        if n % 4 and n > 600:
+            continue
+        nev = len(split_line(impl[4 * n + 1])[0])
+        if nev > 60 or 'PANIC' in impl[4 * n + 1]:
+            continue
+        hs = ['pn' * (nev + 3), 'n' * max(nev - 1, 0) + 'pnnpn', ''.join(ar.choice('pnn') for _ in range(2 * nev + 6))]
+        acases.append((t, hs[n % 3]))
+        if n % 7 == 0:
+            acases.append((t, hs[(n + 1) % 3]))
+    areqs = [f'api {hx(t)} {h}' for t, h in acases]
+    aimpl = run_impl(areqs)
+    greqs = []
+    for (t, h), line in zip(acases, aimpl):
+        outs = line.split(' ')
+        got = [o[2:] for c, o in zip(h, outs) if c == 'n' and o[2:] != '-' and not o[2:].startswith('E:')]
+        greqs.append('gram ' + ' '.join(got))
+    gor = run_model(greqs)
+    for (t, h), line, o, rq in zip(acases, aimpl, gor, areqs):
+        res.evaluations += 1
+        if 'PANIC' in line:
+            continue
+        outs = line.split(' ')
+        nexts = [o2[2:] for c, o2 in zip(h, outs) if c == 'n']
+        errd = any(x.startswith('E:') for x in (o2[2:] for o2 in outs))
+        why = None
+        if not o.startswith('ok'):
+            why = f'events returned by next() are not a grammatical prefix: oracle says {o!r}'
+        else:
+            # nothing after StreamEnd
+            ended = False
+            for x in nexts:
+                if ended and x != '-':
+                    why = 'next() returned something after StreamEnd'
+                    break
+                if x.startswith('SE@'):
+                    ended = True
+            if why is None and not errd and len(outs) == len(h) and nexts and nexts[-1] == '-' and o != 'ok 2 0':
+                why = f'iteration ended without an error but the events are not a whole sentence: {o!r}'
+        if why:
+            res.oracle_failures.append({'sig': usig(t + h), 'what': why + f' (history {h[:40]})', 'reqs': [rq], 'input': repr(t[:200])})
     return res
 
 
@@ -2137,10 +2182,19 @@ def suite_expected(tree):
 def c03(tier, rng):
     res = Result()
     res.rule = "systematic nested layouts (6 parents x indentation step 1-3 x 15 kinds of first key/item x 1-2 pairs); streams rendered from random abstract trees (depth <= 4; block/flow, compact/next-line, explicit keys, sequences at the indentation of their key, comments, blank lines, node properties, aliases, 1-2 documents, markers, %YAML) + the non-error yaml-test-suite cases; non-trivial = at least one collection; distinct by text"
-    res.corr_ops = ['evt str (model pipeline) on every rendered stream']
+    res.corr_ops = ['evt str / evt buf (model pipeline) on every rendered stream, a third of them without the final line break']
     r = rng.fork('c03')
-    cases = R.nested_layout_cases() + [R.render_stream(r) for _ in range(20000 if tier == 'quick' else 500000)]
-    reqs = [f'evt str 128 0 {hx(t)}' for t, _ in cases]
+    base = R.nested_layout_cases() + [R.render_stream(r) for _ in range(20000 if tier == 'quick' else 500000)]
+    # every stream is also read without its final line break (the last token then ends at the end of the input)
+    # and through the character-iterator back-end: the denoted tree is the same
+    cases, kinds = [], []
+    for n, (t, exp) in enumerate(base):
+        v = n % 6
+        if v in (2, 5) and t.endswith('\n') and not t.endswith('\n\n'):
+            t = t[:-1]
+        cases.append((t, exp))
+        kinds.append('buf 16' if v in (1, 5) else 'str 128')
+    reqs = [f'evt {k} 0 {hx(t)}' for (t, _), k in zip(cases, kinds)]
     suite = [c for c in load_suite() if not c['fail'] and c['tree']]
     sreqs = [f'evt str 128 0 {hx(c["yaml"])}' for c in suite]
     impl = run_impl(reqs + sreqs)
@@ -2179,7 +2233,7 @@ def c03(tier, rng):
               "theorems registered: escape table and hex-escape decoding at function level; see Props/C04.lean"])
 def c04(tier, rng):
     res = Result()
-    res.rule = "systematic folds (four words x every combination of joins: blank runs, folds to a space or to 1-2 line feeds, trailing blanks/tab before the break, blank-line contents) x 3 styles x 3-4 contexts; target strings over a tricky-character alphabet (length <= 3 exhaustively over 12 symbols, random up to 16 over 29) x style x random per-character escape/literal choice, fold placement, continuation indentation and trailing padding x 7 syntactic contexts; non-trivial = presentation differs from the target; distinct by document text"
+    res.rule = "long words (every special character at every offset around the look-ahead sizes 16/32/128/256, 3 styles x 3 contexts x 2 back-ends); systematic folds (four words x every combination of joins: blank runs, folds to a space or to 1-2 line feeds, trailing blanks/tab before the break, blank-line contents) x 3 styles x 3-4 contexts; target strings over a tricky-character alphabet (length <= 3 exhaustively over 12 symbols, random up to 16 over 29) x style x random per-character escape/literal choice, fold placement, continuation indentation and trailing padding x 7 syntactic contexts; non-trivial = presentation differs from the target; distinct by document text"
     res.corr_ops = ['evt str on every presentation']
     r = rng.fork('c04')
     A12 = ['a', ' ', '\n', ':', '#', "'", '"', '\\', 'é', '-', '\t', ',']
@@ -2218,12 +2272,30 @@ def c04(tier, rng):
                 fam.append((tg_, style, ctx, doc, idx))
     if tier == 'quick':
         fam = fam[::3] + [c for c in fam if c[0].count('\n') >= 1 and '  ' not in c[0]][::2]
-    cases = fam + cases
-    reqs = [f'evt str 128 0 {hx(d)}' for _, _, _, d, _ in cases]
+    # words straddling the look-ahead sizes, every special character at every offset around each boundary,
+    # on the string back-end and on the 16-character ring of the iterator back-end
+    lw = []
+    for tg_, style, ctx in R.long_word_family(tier != 'quick'):
+        doc, idx = R.in_context(ctx, R.present_simple(tg_, style))
+        lw.append((tg_, style, ctx, doc, idx, 'str 128'))
+        lw.append((tg_, style, ctx, doc, idx, 'buf 16'))
+    # every presentation is read through one of: the string back-end, the iterator back-end, and without the
+    # final line break (the scalar then ends at the end of the input)
+    rest = []
+    for n, c in enumerate(fam + cases):
+        v = n % 5
+        doc = c[3]
+        if v in (2, 4) and doc.endswith('\n') and not doc.endswith('\n\n') and c[1] != 'P':
+            c = c[:3] + (doc[:-1],) + c[4:]
+        elif v in (2, 4) and c[1] == 'P' and c[2] != 'top' and doc.endswith('\n') and not doc[:-1].endswith((' ', '\t', '\n')):
+            c = c[:3] + (doc[:-1],) + c[4:]
+        rest.append(c + ('buf 16' if v in (1, 4) else 'str 128',))
+    cases = lw + rest
+    reqs = [f'evt {k} 0 {hx(d)}' for _, _, _, d, _, k in cases]
     impl = run_impl(reqs)
-    nm = len(reqs) if tier == 'thorough' else 12000
+    nm = len(reqs) if tier == 'thorough' else 20000
     model = run_model(reqs[:nm])
-    for n, (tg_, style, ctx, doc, idx) in enumerate(cases):
+    for n, (tg_, style, ctx, doc, idx, _k) in enumerate(cases):
         res.evaluations += 1
         a = impl[n]
         res.nt(doc)
@@ -2352,7 +2424,7 @@ def c05(tier, rng):
               "theorems registered: parser-level rejection theorems; see Props/C06.lean"])
 def c06(tier, rng):
     res = Result()
-    res.rule = "17 damage operators (the classes of the property) applied to well-formed rendered streams + the yaml-test-suite error cases; non-trivial = all; distinct by text"
+    res.rule = "structural damage on generated constructs (flow collections with one closer swapped / stray / missing / extra, open quotes in 11 contexts, tab indentation, over-long keys of 5 kinds in 8 positions, second roots) + 17 damage operators (the classes of the property) applied to well-formed rendered streams + the yaml-test-suite error cases; non-trivial = all; distinct by text"
     res.corr_ops = ['evt str on every damaged stream']
     r = rng.fork('c06')
     cases = []
@@ -2362,6 +2434,13 @@ def c06(tier, rng):
             d = R.damage_stream(r, t, w)
             if d is not None:
                 cases.append((w, d))
+    # structural damage on generated constructs (flow collections with one closer wrong / stray / missing,
+    # quoted scalars left open in every context, tabs as indentation, over-long keys, second roots)
+    sr = rng.fork('struct')
+    for _ in range(6000 if tier == 'quick' else 200000):
+        x = sr.choice(R.STRUCT_DAMAGES)(sr)
+        if x is not None:
+            cases.append(x)
     for c in load_suite():
         if c['fail']:
             cases.append(('suite:' + c['id'], c['yaml']))
